@@ -490,45 +490,94 @@ class CFG:
                 return [l for v in test.values for l in self._lits(v, True, at, depth)]
             return [(ast.unparse(test), label)]
         if isinstance(test, ast.Name) and depth < 3:
-            ds = self.defs_of(at, test.id)
-            if len(ds) == 1 and ds[0].kind == "assign" and isinstance(ds[0].value, (ast.BoolOp, ast.UnaryOp, ast.Name, ast.Compare)):
-                # `done = terminated or truncated; if done:` -> literals over the defining expression, provided its
-                # operands are not redefined between the definition and the test (checked by reaching-definition equality)
-                rhs = ds[0].value
-                names = {x.id for x in ast.walk(rhs) if isinstance(x, ast.Name)}
-                rd = self.reaching()
-                if all(rd[at].get(nm) == self.reaching_out()[ds[0].node].get(nm) for nm in names):
-                    return self._lits(rhs, label, at, depth + 1) + [(test.id, label)]
+            rhs = self._expand_name(test, at)
+            if rhs is not None:
+                return self._lits(rhs, label, at, depth + 1) + [(test.id, label)]
         return [(ast.unparse(test), label)]
 
-    def paths_avoiding(self, src: int, dst: int, avoid: set, feasible: bool = True) -> list | None:
+    def _expand_name(self, test, at):
+        """`done = terminated or truncated; if done:` -> the defining expression, if its operands still have the
+        values they had at the definition (reaching-definition equality); else None."""
+        ds = self.defs_of(at, test.id)
+        if len(ds) == 1 and ds[0].kind == "assign" and isinstance(ds[0].value, (ast.BoolOp, ast.UnaryOp, ast.Name, ast.Compare)):
+            rhs = ds[0].value
+            names = {x.id for x in ast.walk(rhs) if isinstance(x, ast.Name)}
+            rd = self.reaching()
+            out = self.reaching_out()[ds[0].node]
+            if all(rd[at].get(nm) == out.get(nm) for nm in names) and test.id not in names:
+                return rhs
+        return None
+
+    def eval3(self, test, assume: dict, at: int, depth: int = 0):
+        """Three-valued evaluation of a branch condition under ``assume`` (expr text -> bool). None = unknown."""
+        txt = ast.unparse(test)
+        if txt in assume:
+            return assume[txt]
+        if isinstance(test, ast.Constant):
+            return bool(test.value)
+        if isinstance(test, ast.UnaryOp) and isinstance(test.op, ast.Not):
+            v = self.eval3(test.operand, assume, at, depth)
+            return None if v is None else (not v)
+        if isinstance(test, ast.BoolOp):
+            vals = [self.eval3(v, assume, at, depth) for v in test.values]
+            if isinstance(test.op, ast.Or):
+                if any(v is True for v in vals):
+                    return True
+                return False if all(v is False for v in vals) else None
+            if any(v is False for v in vals):
+                return False
+            return True if all(v is True for v in vals) else None
+        if isinstance(test, ast.Name) and depth < 3:
+            rhs = self._expand_name(test, at)
+            if rhs is not None:
+                return self.eval3(rhs, assume, at, depth + 1)
+        return None
+
+    def paths_avoiding(self, src: int, dst: int, avoid: set, feasible: bool = True, assume=None, first_label=None) -> list | None:
         """A path src -> dst whose interior avoids ``avoid``, or None.
 
-        With ``feasible`` the search is path-sensitive for *syntactically identical* branch conditions: a path that
-        takes the True arm of a condition and later the False arm of the same condition, with no definition of the
-        condition's variables in between, is infeasible and not reported (removes the correlated-branch false alarm).
+        With ``feasible`` the search is path-sensitive for *syntactically identical* branch conditions and for the
+        boolean structure (not/and/or) over them: a branch whose condition evaluates to a definite value under the
+        literals collected so far (``assume`` = initial literals) is only followed on that arm.  Literals are dropped
+        when one of their variables is redefined.  This removes correlated-branch false alarms and implements the
+        truth-table pruning of C11-R3; it is a finite graph search, not a solver.
         """
-        start = (src, frozenset())
-        seen = {start}
-        stack = [(src, frozenset(), [src])]
+        a0 = frozenset((assume or {}).items()) if not isinstance(assume, frozenset) else assume
+        seen = {(src, a0)}
+        stack = [(src, a0, [src])]
+        first = True
         while stack:
-            x, assume, path = stack.pop()
+            x, assume_, path = stack.pop()
             node = self.nodes[x]
             for s, lab in node.succ:
-                a2 = assume
+                if x == src and len(path) == 1 and first_label is not None and lab != first_label:
+                    continue
+                a2 = assume_
                 if feasible and node.kind == "test" and hasattr(node.ast, "test") and lab in (True, False):
+                    v = self.eval3(node.ast.test, dict(a2), x)
+                    if v is not None and v != lab:
+                        continue
                     lits = self._lits(node.ast.test, lab, x)
-                    if any((k, not v) in a2 for k, v in lits):
+                    if any((k, not vv) in a2 for k, vv in lits):
                         continue
                     a2 = a2 | frozenset(lits)
                 if s == dst:
                     return path + [s]
                 if s in avoid:
                     continue
-                if feasible and a2:
-                    killed = {d.name for d in self.nodes[s].defs}
-                    if killed:
+                if feasible:
+                    sn = self.nodes[s]
+                    killed = {d.name for d in sn.defs}
+                    if killed and a2:
+                        val = None
+                        if sn.kind == "stmt" and isinstance(sn.ast, ast.Assign) and len(sn.ast.targets) == 1 and isinstance(sn.ast.targets[0], ast.Name):
+                            # constant propagation of booleans along the path: `done = terminated or truncated`
+                            val = self.eval3(sn.ast.value, dict(a2), s) if isinstance(sn.ast.value, (ast.BoolOp, ast.UnaryOp, ast.Name, ast.Constant)) else None
+                            if isinstance(sn.ast.value, ast.Constant) and not isinstance(sn.ast.value.value, bool):
+                                val = None
                         a2 = frozenset((k, v) for k, v in a2 if not (killed & _idents(k)))
+                        if val is not None:
+                            a2 = a2 | {(sn.ast.targets[0].id, val)}
                 st = (s, a2)
                 if st in seen:
                     continue
@@ -542,6 +591,8 @@ class CFG:
             n = self.nodes[p]
             if n.kind in ("entry", "exit"):
                 out.append(n.kind)
+            elif isinstance(n.ast, ast.Expr) and isinstance(n.ast.value, ast.Constant) and isinstance(n.ast.value.value, str):
+                continue
             else:
                 txt = ast.unparse(n.ast.test) if n.kind == "test" and hasattr(n.ast, "test") else (
                     "for " + ast.unparse(n.ast.target) if n.kind == "for" else ast.unparse(n.ast).split("\n")[0])
